@@ -587,7 +587,12 @@ impl RADAU {
                             h *= hhfac;
                             steps.rejected += 1;
                             last = false;
-                            break 'newton;
+                            // Restart the step with the reduced size, as RADAU5 does; falling
+                            // through to the error estimate could accept a step whose end point
+                            // was computed with the old size while h is already the new one.
+                            reject = true;
+                            call_decomp = true;
+                            continue 'main;
                         }
                     } else {
                         // Unexpected step rejection - continue with reduced step
